@@ -126,6 +126,51 @@ def run(ctx):
                             ctx.counterexample('%s: non-magic pattern %r also matches %r (%s)' % (mode, s, n, corr.flag_names(fv)),
                                                {'pattern': s, 'other': n, 'flags': corr.flag_names(fv), 'mode': mode})
                             break
+    # the bytes route of the same law (the RAWCHARS decoder has a table of its own for bytes)
+    for s0 in strs[:: 3 if ctx.quick else 1]:
+        if not s0 or any(ord(c) > 255 for c in s0):
+            continue
+        for mode in ('fnmatch', 'glob'):
+            api = Fm if mode == 'fnmatch' else Gm
+            fv = api.FORCEUNIX | (api.RAWCHARS if rng.random() < 0.6 else 0) | (api.DOTMATCH if rng.random() < 0.5 else 0) | (api.EXTMATCH if rng.random() < 0.5 else 0)
+            sb = s0.encode('latin-1')
+            eb = api.escape(sb) if mode == 'fnmatch' else Gm.escape(sb, unix=True)
+            mtb = (lambda n, p: Fm.fnmatch(n, p, flags=fv)) if mode == 'fnmatch' else (lambda n, p: Gm.globmatch(n, p, flags=fv))
+            evals += 1
+            try:
+                ok = mtb(sb, eb)
+            except Exception as ex:
+                ctx.counterexample('%s(%r, escape(%r)=%r, %s) raised %s' % (mode, sb, sb, eb, corr.flag_names(fv), type(ex).__name__), {'string': repr(sb), 'flags': corr.flag_names(fv)})
+                continue
+            if not ok:
+                ctx.counterexample('%s(%r, escape(%r)=%r, %s) is False' % (mode, sb, sb, eb, corr.flag_names(fv)), {'string': repr(sb), 'escaped': repr(eb), 'flags': corr.flag_names(fv), 'mode': mode})
+                continue
+            for n in neighbours(s0, rng, 6):
+                if not n or any(ord(c) > 255 for c in n):
+                    continue
+                evals += 1
+                canon = (lambda t: __import__('re').sub('/+', '/', t).rstrip('/') or t[:1]) if mode == 'glob' else (lambda t: t)
+                if mtb(n.encode('latin-1'), eb) and canon(n) != canon(s0):
+                    ctx.counterexample('%s (bytes): escape(%r)=%r also matches %r (%s)' % (mode, sb, eb, n.encode('latin-1'), corr.flag_names(fv)),
+                                       {'string': repr(sb), 'escaped': repr(eb), 'other': repr(n), 'flags': corr.flag_names(fv), 'mode': mode})
+                    break
+    # names that look like a Windows drive or share, in fnmatch mode under Windows rules: there nothing is a drive, separators
+    # are ordinary characters standing for either spelling - one each, no runs
+    for s0 in ['c:/x', 'c:\\x', 'C:/a*b', '//s/h/f', '\\\\s\\h\\f', 'c:', 'c:/', '//?/c:/x', 'c:/a/b', 'd:x/y']:
+        for extra in (0, Fm.EXTMATCH, Fm.DOTMATCH | Fm.BRACE | Fm.SPLIT):
+            fv = Fm.FORCEWIN | extra
+            e = Fm.escape(s0)
+            evals += 1
+            if not Fm.fnmatch(s0, e, flags=fv):
+                ctx.counterexample('fnmatch(%r, fnmatch.escape(%r)=%r, %s) is False' % (s0, s0, e, corr.flag_names(fv)), {'string': s0, 'escaped': e, 'flags': corr.flag_names(fv)})
+                continue
+            fold = lambda t: t.lower().replace('\\', '/')
+            cands = neighbours(s0, rng, 10) + [s0.replace('/', '//', 1), s0.replace('/', '/\\', 1), s0.replace('\\', '\\\\', 1), s0 + '/', s0.replace(':', ':/', 1)]
+            for n in cands:
+                evals += 1
+                if n and fold(n) != fold(s0) and Fm.fnmatch(n, e, flags=fv):
+                    ctx.counterexample('fnmatch.escape(%r) = %r also matches %r under %s' % (s0, e, n, corr.flag_names(fv)), {'string': s0, 'escaped': e, 'other': n, 'flags': corr.flag_names(fv)})
+                    break
     # Windows drive / UNC shapes with unix=False
     shapes = ['c:/a*b', 'C:\\x{1}', '//srv/share/a|b', '//srv/a|b/x', '//srv/sh{a}re/f', '\\\\srv\\share\\[x]', '//?/c:/a*', '//?/UNC/h/s/x?',
               'c:a', '//./dev{1}/x', '//srv/share', 'c:/', '//srv/a~b/!x', '//srv/(a)/b', '//s-v/sh-re/-x']
